@@ -39,6 +39,10 @@ TRUSTED_BASE = [
     "Mathlib v4.33 modules imported by Proofs/ files only",
     "Spec transcriptions of Annex 10 / DO-260B / Doc 9871 in lean/PyModeS/Spec and harness/spec.py, and the reading of the property statement",
     "the tie: harness/gen_tables.py (literal tables), the correspondence harness and canonicaliser, the compiled driver (Lean compiler + leanc)",
+    "second tie (where tie_modules are listed): harness/py2lean.py (Python AST -> Lean `do` notation over lean/PyModeS/Py/Val.lean: one numeric "
+    "type for int and float with exact rationals, lists/tuples/arrays as one sequence type, objects as attribute dictionaries threaded "
+    "through methods, values without identity), the externals of Py/Ext.lean (cprNL, floor bound to the hand model; libm calls in double "
+    "precision); validated on every run by executing the generated definitions against the real code (gendriver, harness/gentie.py)",
     "modelled, not verified: CPython/numpy primitive semantics (int(), slicing, %, np.floor, textwrap.wrap), IEEE double rounding and libm, time.time(), ZeroMQ / rtl-sdr I/O",
 ]
 
